@@ -464,6 +464,18 @@ func main() {
 		hkit.EmitShardResult(rep)
 		return
 	}
+	// the reactor is a singleton that can be started again after Stop(): three lives in a row, ended by the real
+	// Stop(), must answer the same calls in the same way (every exploration below starts from VerifReset, which
+	// forgets exactly what Stop() forgets: state that survives it would make the executions depend on each other)
+	if !drainMode && a.Extra["only"] == "" {
+		if msg := lives(); msg != "" {
+			hkit.Report(propID, "later-life-differs", map[string]any{"engine": "explore", "harness": harnessName, "lives": msg}, msg)
+			hkit.Evidence(propID, a.Tier, "model_checking", map[string]any{"states": 0, "transitions": 0, "traces_validated_against_impl": 3, "exhaustive": false,
+				"explanation": "three consecutive lives of the reactor singleton differ: the explorations, which need independent executions, were not run"}, nil, hkit.Violations())
+			fmt.Printf(propID+" %s: the lives of the singleton differ, explorations not run\n", a.Tier)
+			hkit.Exit()
+		}
+	}
 	for _, v := range vs {
 		if err := vsched.DeterminismCheck(scenario(v)); err != nil {
 			hkit.EngineError("%v", err)
@@ -552,6 +564,60 @@ func firstLine(s string) string {
 		s = s[:600]
 	}
 	return s
+}
+
+// lives runs the same short history in three consecutive lives of the singleton (plain goroutines, no scheduler) and
+// returns a description of the first call that answers differently in a later life ("" = none).
+func lives() string {
+	reactor.VerifReset()
+	config.VerifSet(&config.Config{NoStdoutLogging: true, NoStderrLogging: true, NoFileLogging: true})
+	var first []string
+	for life := 1; life <= 3; life++ {
+		var got []string
+		out := make(chan *models.Item, 1)
+		if err := reactor.Start(1, out); err != nil {
+			return fmt.Sprintf("life %d: Start: %v", life, err)
+		}
+		a := newItem(fmt.Sprintf("life%d-a", life))
+		got = append(got, "insert(a)="+classify("insert", reactor.ReceiveInsert(a)))
+		select {
+		case <-out:
+			got = append(got, "a forwarded")
+		case <-time.After(5 * time.Second):
+			got = append(got, "a not forwarded")
+		}
+		reactor.Freeze()
+		bounded := func(f func() error) string { // a call that does not return within 3 s is an answer too
+			ch := make(chan string, 1)
+			go func() { ch <- classify("insert", f()) }()
+			select {
+			case r := <-ch:
+				return r
+			case <-time.After(3 * time.Second):
+				return "blocked"
+			}
+		}
+		b := newItem(fmt.Sprintf("life%d-b", life))
+		got = append(got, "frozen: insert(b)="+bounded(func() error { return reactor.ReceiveInsert(b) }))
+		if got[len(got)-1] == "frozen: insert(b)=blocked" {
+			return fmt.Sprintf("later-life-differs: life %d of the reactor singleton (Start after Stop): an insert after Freeze() blocks instead of being rejected (%v; first life: %v)", life, got, first)
+		}
+		got = append(got, "frozen: feedback(a)="+bounded(func() error { return reactor.ReceiveFeedback(a) }))
+		got = append(got, "frozen: finish(a)="+bounded(func() error { return reactor.MarkAsFinished(a) }))
+		got = append(got, fmt.Sprintf("tokens=%d tracked=%d", reactor.VerifTokens(), reactor.VerifTracked()))
+		reactor.Stop()
+		got = append(got, "stopped: insert(c)="+classify("insert", reactor.ReceiveInsert(newItem(fmt.Sprintf("life%d-c", life)))))
+		if life == 1 {
+			first = got
+			continue
+		}
+		for i := range got {
+			if got[i] != first[i] {
+				return fmt.Sprintf("later-life-differs: life %d of the reactor singleton (Start after Stop): %q, in its first life: %q (whole lives: %v versus %v)", life, got[i], first[i], got, first)
+			}
+		}
+	}
+	return ""
 }
 
 func replay(path string, vs []variant) {
